@@ -696,7 +696,32 @@ fn run_replay(r: &C16Replay, stats: &mut Stats, sample: Option<&mut Vec<String>>
         // ---- mutate, then re-pull
         let elems: Vec<Node> = x.descendants(doc).take(NODE_LIMIT).filter(|n| x.is_element(*n)).collect();
         if let Some(e) = rng.pick_opt(&elems).copied() {
-            match rng.below(5) {
+            match rng.below(7) {
+                5 => {
+                    // an empty text node (the parser never makes one, the API does)
+                    let t = x.new_text("");
+                    let _ = x.append(e, t);
+                    if rng.pct(50) {
+                        let c = x.new_comment("after-empty");
+                        let _ = x.append(e, c);
+                    }
+                    log.push("append empty text node".into());
+                    stats.inc("probe/c16_empty_text_node");
+                }
+                6 => {
+                    // one very large token now and then (write coalescing, buffers)
+                    if rng.pct(25) {
+                        let big = "long text & more <markup> ".repeat(400);
+                        if rng.pct(50) {
+                            let _ = x.append_text(e, &big);
+                        } else {
+                            let nm = x.add_name("big");
+                            x.set_attribute(e, nm, big);
+                        }
+                        log.push("large token".into());
+                        stats.inc("probe/c16_token_larger_than_8k");
+                    }
+                }
                 0 => {
                     let nm = x.add_name("added");
                     x.set_attribute(e, nm, "a<b>\"c");
